@@ -54,7 +54,12 @@ func main() {
 	decode := flag.String("decode", "", "decode a CodeGeneratorResponse file")
 	root := flag.String("root", "", "root to write decoded files under")
 	write := flag.String("write", "1", "write decoded files")
+	origReq := flag.String("orig-requests", "", "write requests that regenerate the checked-in packages as they are (dir)")
 	flag.Parse()
+	if *origReq != "" {
+		doOrigRequests(*origReq)
+		return
+	}
 	if *decode != "" {
 		doDecode(*decode, *root, *write == "1")
 		return
@@ -225,4 +230,34 @@ func countMsgs(ms []*descriptorpb.DescriptorProto) int {
 		n += 1 + countMsgs(m.NestedType)
 	}
 	return n
+}
+
+// doOrigRequests writes one request per checked-in package, built from the
+// registered descriptors unchanged (paths=source_relative as in buf.gen.yaml).
+func doOrigRequests(dir string) {
+	groups := map[string][]string{
+		"orig-testpb": {"1.proto", "2.proto", "3.proto"},
+		"orig-test3":  {"internal/testprotos/test3/test.proto", "internal/testprotos/test3/test_import.proto", "internal/testprotos/test3/test_nesting.proto"},
+	}
+	if err := os.MkdirAll(dir, 0o755); err != nil {
+		panic(err)
+	}
+	for name, paths := range groups {
+		s := &Set{Name: name, Expect: "ok", Parameter: "paths=source_relative", Generate: paths}
+		for _, p := range paths {
+			fd, err := protoregistry.GlobalFiles.FindFileByPath(p)
+			if err != nil {
+				panic(err)
+			}
+			s.files = append(s.files, protodesc.ToFileDescriptorProto(fd))
+		}
+		req, err := buildRequest(s)
+		if err != nil {
+			panic(err)
+		}
+		b, _ := proto.Marshal(req)
+		if err := os.WriteFile(filepath.Join(dir, name+".req"), b, 0o644); err != nil {
+			panic(err)
+		}
+	}
 }
